@@ -213,7 +213,12 @@ func C09(c *Ctx) {
 		Grammars: gs,
 		VarFor: func(gi int, g *gast.Grammar) [][]string {
 			v := []string{"-optimize-grammar"}
-			if len(entries[gi]) > 0 {
+			if len(entries[gi]) > 1 && gi%2 == 1 {
+				// the flag may be given several times
+				for _, e := range entries[gi] {
+					v = append(v, "-alternate-entrypoints", e)
+				}
+			} else if len(entries[gi]) > 0 {
 				v = append(v, "-alternate-entrypoints", strings.Join(entries[gi], ","))
 			}
 			if gi < nStrata && len(v) > 1 {
@@ -291,6 +296,10 @@ func c09Strata() []*gast.Grammar {
 		mk(r("S", gast.Star(gast.C(gast.L("k"), gast.Cl(&gast.ClassSpec{UClasses: []string{"Ll"}, Inverted: true}), gast.L("é"))))),
 		mk(r("S", gast.Star(gast.C(gast.Li("X"), gast.Cl(&gast.ClassSpec{Chars: []rune("x"), Ranges: [][2]rune{{'a', 'w'}}, Inverted: true, IgnoreCase: true}))))),
 		mk(r("S", gast.Star(gast.C(gast.Cl(&gast.ClassSpec{Ranges: [][2]rune{{'0', '9'}}, Inverted: true}), gast.L("5"), inv("xyz"), gast.L("y"))))),
+		// a caseless one-rune literal next to a literal / class with the other i flag
+		mk(r("S", gast.Plus(gast.C(gast.L("_"), gast.Li("x"), gast.Cl(&gast.ClassSpec{Ranges: [][2]rune{{'0', '9'}}})))), r("T", gast.Plus(gast.C(gast.Li("1"), gast.L("a"), gast.Li("-"), gast.Cl(gast.Chars("k")))))),
+		// non-ASCII one-rune literals merged into classes
+		mk(r("S", gast.Plus(gast.C(gast.L("«"), gast.L("»"), gast.L("–"), gast.Cl(gast.Chars("ab")), gast.L("é"), gast.L("Â"))))),
 		// one-rune literals that mean something inside a class, side by side in a choice
 		mk(r("S", gast.Star(gast.C(gast.L("^"), gast.L("*"), gast.L("a")))), r("T", gast.Star(gast.C(gast.L("\\"), gast.L("/"))))),
 		mk(r("S", gast.Star(gast.C(gast.L("]"), gast.L("x"), gast.L("-"), gast.L("z"), gast.L("[")))), r("T", gast.Star(gast.C(gast.L("a"), gast.L("-"), gast.L("c"), gast.L("\\"), gast.L("n"))))),
